@@ -124,13 +124,16 @@ Section Cmp.
 End Cmp.
 
 (** earliest instant, over both runs, at which (a) a state probe shows the Pacing timer armed, or
-    (b) a connection ends a drive with a deadline that is already due (a timer armed in the past while
-    a datagram was handled): a handle_timeout call at such an instant is not an extra call — it
+    (b) a connection ends a drive with a deadline that is already due, or a state probe taken during a
+    drive shows a timer armed at an instant before the probe (a timer armed in the past while
+    a datagram was handled - e.g. the PTO recomputed from the first RTT sample of a 0-RTT client, which
+    the transmit that follows re-arms before the drive ends): a handle_timeout call at such an instant is not an extra call — it
     services the timer before instead of after the pending transmit, which legitimately changes the
     packetisation (e.g. PTO probes coalesced with a PATH_RESPONSE) *)
 Definition v3_lim (o : list (list Z)) : Z :=
   fold_left (fun m r =>
     if (tag r =? 8) && negb (pf r 24 =? -1) then Z.min m (rtime r)
+    else if (tag r =? 8) && existsb (fun j => (0 <=? pf r (18 + j)) && (pf r (18 + j) <? rtime r)) (seq 0 9) then Z.min m (rtime r)
     else if (tag r =? 6) && (0 <=? fld r 4) && (fld r 4 <=? rtime r) then Z.min m (rtime r)
     else m) o INF.
 
